@@ -306,6 +306,7 @@ def worker(ob):
             if op == "inv_norm_cdf":
                 m.assume(reals[0].z() > 0); m.assume(reals[0].z() < 1)
             mixed = set(kinds) == {"Dual", "Dual2"}
+            soft = []
             try:
                 res = m.run_function(fn, args, {})
                 panicked = None
@@ -319,6 +320,9 @@ def worker(ob):
                     want = m.call_text(f"<&{tys[0]} as {TRAIT[op]}<&{tys[1]}>>::{op}", [m.temp_ref(vals[0]), m.temp_ref(vals[1])],
                                        [parse_type("&" + tys[0]), parse_type("&" + tys[1])], parse_type("?out") if False else Ty("other", "?"))
                     props += sem_equal(S, m, res, want, names)
+                    (n1_, d1_), (n2_, d2_) = sem(S, m, res)[1].pair(), sem(S, m, want)[1].pair()
+                    soft.append((f"{op}: the container's value is produced by the same floating-point operations as the contained operator (bit-identical)",
+                                 bool(z3.eq(n1_, n2_) and z3.eq(d1_, d2_))))
                 elif sub == "cmp":
                     if op == "eq":
                         want = m.call_text(f"<{tys[0]} as PartialEq<{tys[1]}>>::eq", [m.temp_ref(vals[0]), m.temp_ref(vals[1])],
@@ -450,7 +454,41 @@ def worker(ob):
                     out["mismatch"].append(f"{prof}: {x}")
             out["reproduced"] = any("replay error" not in x for x in out["mismatch"])
             return out
+        def pool_replay(model):
+            import math
+            env0 = input_env(model, inputs, extra) if model is not None else None
+            out = {"scenario": None, "mismatch": [], "native": {}, "reproduced": False}
+            if env0 is None:
+                return out
+            for x, y in ((49.0, 49.0), (1.0, 3.0), (0.1, 0.3), (1e-300, 1e-310), (7.0, 0.7), (5.0, 14.07), (-2.5, 0.1)):
+                env = dict(env0)
+                env[str(inputs[0]["real"])] = x; env[str(inputs[1]["real"])] = y
+                sc_ = mk_sc(env)
+                def plain(j):
+                    return j["bare_f64"] if "bare_f64" in j else j["f64"] if j.get("kind") == "F64" else None
+                fa, fb = plain(sc_["a"]), plain(sc_["b"])
+                for prof in ("dev", "release"):
+                    o = native_run([sc_], prof)[0]
+                    if o.get("panic") or "error" in o:
+                        continue
+                    if fa is not None and fb is not None:
+                        w = {"add": fa + fb, "sub": fa - fb, "mul": fa * fb, "div": fa / fb, "rem": math.fmod(fa, fb)}[sc_["op"]]
+                    else:
+                        ja = {"f64": fa} if fa is not None else sc_["a"]
+                        jb = {"f64": fb} if fb is not None else sc_["b"]
+                        w = native_run([{"kind": "dual_binop", "ty": "Dual2" if "Dual2" in (ja.get("kind"), jb.get("kind")) else "Dual", "op": sc_["op"], "a": ja, "b": jb}], prof)[0].get("real")
+                    g = o.get("real")
+                    if w is not None and g is not None and g != w and not (g != g and w != w):
+                        out["mismatch"].append(f"{prof}: {sc_['op']} on values {x!r}, {y!r}: container gives {g!r}, contained operator gives {w!r}")
+                        out["scenario"] = sc_; out["native"][prof] = o
+                if out["mismatch"]:
+                    break
+            out["reproduced"] = bool(out["mismatch"])
+            return out
         add_props(chk, props, replay)
+        if kind == "numop":
+            for d_, ok_ in soft:
+                chk.add_soft(d_, ok_, pool_replay)
         return chk
     return explore_ob(harness, max_paths=4000, max_seconds=1200)
 
